@@ -733,6 +733,11 @@ Again:
 		if typ != want && !(c.isClient && c.config.Renegotiation != RenegotiateNever) {
 			return c.in.setErrorLocked(c.sendAlert(alertNoRenegotiation))
 		}
+		if want == recordTypeChangeCipherSpec {
+			// a handshake message where ChangeCipherSpec is due is never a
+			// renegotiation request: the peer skipped ChangeCipherSpec
+			return c.in.setErrorLocked(c.sendAlert(alertUnexpectedMessage))
+		}
 		c.hand.Write(data)
 	}
 
